@@ -257,7 +257,9 @@ I = Interner()
 
 
 def coq_str(s):
-    return I.s(s)
+    # what the RP stored may be a null (a claim the provider sent as JSON null): it has to show in the trace as a value
+    # the model cannot produce, not crash the writer
+    return I.s("<null>" if s is None else s)
 
 
 def coq_pyval(v):
